@@ -54,7 +54,14 @@ func c03Conds() []nodeFn {
 // run directly after every program (no load in between, as a host running
 // loaded scripts back to back does): a name no script of THIS run assigned
 // reads the point's key or nil, whatever ran before.
-const c03CanarySrc = "p(x, y, z, v, w, u, i, lst, mp, pk, n0, _)\n"
+// (besides reading names the canary holds one construct of every kind: whatever a later parse or load
+// does to storage the canary's tree lives in shows in its next run)
+const c03CanarySrc = "p(x, y, z, v, w, u, i, lst, mp, pk, n0, _)\n" +
+	"if pk == \"nope\" { p(101) } elif n0 == 0 { p(102) } elif pk == \"pv\" { p(103) } else { p(104) }\n" +
+	"if n0 { p(107) } elif pk { if true { p(108) } } else { p(109) }\n" +
+	"for cq = 0; cq < 2; cq = cq + 1 { if cq == 1 { p(105, cq) } }\n" +
+	"for ce in [\"a\", \"b\"] { p(106, ce) }\n" +
+	"p({\"k\": [1, \"two\"]}, \"lit\\t\" + 'q', -3, 1.5, [1, 2, 3][1:], `pk`)\n"
 
 var (
 	c03Canary     *plrt.Script
@@ -78,7 +85,7 @@ func c03Exec(w *run.Worker, part string, stmts []*rt.Node) {
 		}
 		c03Canary = sc
 		c03CanaryWant, _ = c03RunCanary()
-		if want := `p(nil,nil,nil,nil,nil,nil,nil,nil,nil,s:"pv",i:0,s:"msg")|<nil>`; c03CanaryWant != want {
+		if want := `p(nil,nil,nil,nil,nil,nil,nil,nil,nil,s:"pv",i:0,s:"msg");p(i:102);p(i:108);p(i:105,i:1);p(i:106,s:"a");p(i:106,s:"b");p({"k":[i:1,s:"two"]},s:"lit\tq",i:-3,f:1.5,[i:2,i:3],s:"pv")|<nil>`; c03CanaryWant != want {
 			w.Violate("C03:canary:first-run-in-fresh-worker", fmt.Sprintf("canary gives %s, expected %s", c03CanaryWant, want), c03Case{Part: "canary", Source: c03CanarySrc})
 		}
 	}
@@ -123,6 +130,13 @@ func c03Truthiness(w *run.Worker) {
 		}
 		if w.Take() {
 			c03Exec(w, "truthiness-if", []*rt.Node{x0(), rt.If(c1(), rt.Block(rt.Call("p", I(1)))), rt.Call("p", I(2))})
+		}
+		// two bare nested guards: each follows the truthiness table on its own
+		for _, c2 := range conds {
+			if !w.Take() {
+				continue
+			}
+			c03Exec(w, "truthiness-nested-guards", []*rt.Node{x0(), rt.If(c1(), rt.Block(rt.If(c2(), rt.Block(rt.Call("p", I(1)))))), rt.Call("p", I(2))})
 		}
 	}
 }
